@@ -553,6 +553,42 @@ func (m *c20OrderMw) Wrap(next http.Handler) http.Handler {
 	})
 }
 
+// c20NestRec / c20NestHandler: a minimal recording slog.Handler for the nested-middleware stage.
+type c20NestRec struct {
+	mu  sync.Mutex
+	fin map[string][]int
+}
+
+type c20NestHandler struct {
+	rec   *c20NestRec
+	layer string
+}
+
+func (h *c20NestHandler) Enabled(context.Context, slog.Level) bool { return true }
+func (h *c20NestHandler) WithAttrs([]slog.Attr) slog.Handler       { return h }
+func (h *c20NestHandler) WithGroup(string) slog.Handler            { return h }
+func (h *c20NestHandler) Handle(_ context.Context, r slog.Record) error {
+	if r.Message != "finished" {
+		return nil
+	}
+	code := -1
+	r.Attrs(func(a slog.Attr) bool {
+		if a.Key == "code" {
+			code = int(a.Value.Int64())
+		}
+		return true
+	})
+	h.rec.mu.Lock()
+	h.rec.fin[h.layer] = append(h.rec.fin[h.layer], code)
+	h.rec.mu.Unlock()
+	return nil
+}
+
+// c20MwFunc adapts a function to httputil.Middleware.
+type c20MwFunc func(http.Handler) http.Handler
+
+func (f c20MwFunc) Wrap(next http.Handler) http.Handler { return f(next) }
+
 func evalC20Wrap(f []string) Result {
 	var evs []string
 	var mws []httputil.Middleware
@@ -635,6 +671,49 @@ func evalC20Wrap(f []string) Result {
 		}
 		if strings.Join(recv3, ",") != strings.Join(wantRecv, ",") {
 			direct = fail("wrap-order-nested", "Wrap(Wrap(h, m%d..), m1..m%d), argument slices overwritten afterwards: received by %v, the property demands %v", k+1, k, recv3, wantRecv)
+		}
+	}
+	// Two LogMiddlewares in one chain with a middleware between them that answers the status
+	// line itself before passing the request on: every layer's "finished" record reports what
+	// ITS wrapped handler set (the inner one: nothing, so 200), the client gets the first status.
+	if direct == "ok" {
+		for _, baseCode := range []int{0, 404} {
+			rec := &c20NestRec{fin: map[string][]int{}}
+			outer := httputil.NewLogMiddleware(slog.New(&c20NestHandler{rec: rec, layer: "outer"}), slog.LevelInfo)
+			inner := httputil.NewLogMiddleware(slog.New(&c20NestHandler{rec: rec, layer: "inner"}), slog.LevelInfo)
+			early := c20MwFunc(func(next http.Handler) http.Handler {
+				return http.HandlerFunc(func(w http.ResponseWriter, r *http.Request) {
+					w.WriteHeader(http.StatusAccepted)
+					next.ServeHTTP(w, r)
+				})
+			})
+			base := http.HandlerFunc(func(w http.ResponseWriter, _ *http.Request) {
+				if baseCode != 0 {
+					w.WriteHeader(baseCode)
+				}
+				_, _ = w.Write([]byte("body"))
+			})
+			cli := httptest.NewRecorder()
+			httputil.Wrap(base, outer, early, inner).ServeHTTP(cli, httptest.NewRequest(http.MethodGet, "/nested", nil))
+			wantInner := 200
+			if baseCode != 0 {
+				wantInner = baseCode
+			}
+			// the outer layer's handler set 202 first and (through the inner layers) possibly
+			// another code later; which of the two an implementation reports is not decided by the
+			// property, the first one is what the client got
+			gotInner, gotOuter := rec.fin["inner"], rec.fin["outer"]
+			switch {
+			case len(gotInner) != 1 || gotInner[0] != wantInner:
+				direct = fail("nested-finished-code", "log middleware inside another one, a middleware between them wrote 202 first, the innermost handler set %d (0 = nothing): inner \"finished\" codes %v, want [%d]", baseCode, gotInner, wantInner)
+			case len(gotOuter) != 1 || (gotOuter[0] != http.StatusAccepted && gotOuter[0] != wantInner):
+				direct = fail("nested-finished-code", "outer \"finished\" codes %v, want [202]", gotOuter)
+			case cli.Code != http.StatusAccepted || cli.Body.String() != "body":
+				direct = fail("nested-client", "client got %d %q, want 202 \"body\"", cli.Code, cli.Body.String())
+			}
+			if direct != "ok" {
+				break
+			}
 		}
 	}
 	class := "trivial-wrap"
